@@ -1235,6 +1235,17 @@ impl<Alloc: BrotliAlloc> BrotliEncoderStateStruct<Alloc> {
         if dict_size > 1 {
             self.prev_byte2_ = dict[dict_size.wrapping_sub(2)];
         }
+        #[cfg(all(brotli_verif, feature = "std"))]
+        crate::enc::threading::verif_multi::record([
+            4,
+            crate::enc::threading::verif_multi::job(),
+            if let UnionHasher::Uninit = self.hasher_ { 0 } else { 1 },
+            size as u64,
+            dict_size as u64,
+            (cfg!(debug_assertions) || !has_optional_hasher) as u64,
+            (cfg!(debug_assertions) && has_optional_hasher) as u64,
+            0,
+        ]);
         let m16 = &mut self.m8;
         if cfg!(debug_assertions) || !has_optional_hasher {
             let mut orig_hasher = UnionHasher::Uninit;
